@@ -1489,6 +1489,16 @@ impl RouterWorld {
             if hi == 0 {
                 cands = vec![first];
             }
+            // now and then an otherwise perfectly valid hop through a pair that is NOT registered
+            // (removed or foreign, active, with liquidity): only check_is_pair_sc stops it
+            if rng.chance(8, 100) {
+                let un: Vec<usize> = unregistered.iter().copied()
+                    .filter(|&ix| s.pairs[ix].state == 1 && !s.pairs[ix].s.is_zero() && (self.pairs[ix].t1 == cur_tok || self.pairs[ix].t2 == cur_tok))
+                    .collect();
+                if !un.is_empty() {
+                    cands = un;
+                }
+            }
             if cands.len() > 1 && rng.chance(7, 10) {
                 if let Some(l) = last_ix {
                     cands.retain(|&c| c != l);
